@@ -447,6 +447,9 @@ pub fn check_tx(ops: &[TOp]) -> Result<bool, String> {
 }
 
 fn run(ctx: &Ctx, mode: &str) -> Report {
+    if mode == "event_e2e" {
+        return super::c06::run_other(ctx, mode);
+    }
     let mut report = Report::default();
     let known = load_known(&ctx.verif_dir);
     if mode == "tx" {
@@ -515,7 +518,10 @@ fn run(ctx: &Ctx, mode: &str) -> Report {
     report
 }
 
-fn replay(_ctx: &Ctx, v: &Value) -> Result<String, String> {
+fn replay(ctx: &Ctx, v: &Value) -> Result<String, String> {
+    if v.get("choices").is_some() {
+        return super::c06::replay_ts(ctx, v);
+    }
     if v.get("tx").is_some() {
         let ops: Vec<TOp> = serde_json::from_value(v["tx"].clone()).map_err(|e| e.to_string())?;
         return check_tx(&ops).map(|_| "transaction history conforms".into());
@@ -532,7 +538,7 @@ pub fn def() -> CheckDef {
         level: "exploration",
         rule: "histories (size 1-12, slide<=size, 1-3 keys, up to 100 timestamped elements / watermarks / end-of-iteration markers respecting the watermark contract, out-of-order arrivals, idle gaps > size, watermarks on slide multiples and on window ends) fed to EventTimeWindowManager as KeyedWindowManager does; predicates: one key and one interval of the window length per result, every element in >=1 and <= ceil(size/slide) results (exactly 1 for tumbling), a result is emitted by a watermark >= its end or the end of the iteration and never after an earlier watermark beyond its end, no window twice; transaction histories against a literal model of Continue/Commit/CommitAfter/Discard; non-trivial = >=1 out-of-order arrival and >=2 fired windows (event time), >=2 commits with a pending CommitAfter (transaction); distinct = hash of the history",
         assumptions: &["managers are driven directly (single thread); the end-to-end path through group_by + window is covered by C06's jobs"],
-        modes: |t| vec![("model", t.pick(4, 8)), ("tx", t.pick(2, 4)), ("kf", 1)],
+        modes: |t| vec![("model", t.pick(4, 8)), ("tx", t.pick(2, 4)), ("event_e2e", t.pick(3, 6))],
         run,
         replay,
     }
